@@ -81,13 +81,16 @@ class FuncInfo:
         self.is_static = False
         self.is_classmethod = False
         self.is_property = False
+        self.is_contextmanager = False  # @contextlib.contextmanager
         self.memo_decorator = None  # text of a functools.lru_cache / cache decorator
         self.other_decorators = []  # texts of decorators the model gives no meaning to
         if not isinstance(node, ast.Lambda):
             for d in node.decorator_list:
                 txt = ast.unparse(d)
                 head = txt.split("(")[0]
-                if head.split(".")[-1] in ("lru_cache", "cache"):
+                if head.split(".")[-1] == "contextmanager":
+                    self.is_contextmanager = True
+                elif head.split(".")[-1] in ("lru_cache", "cache"):
                     self.memo_decorator = txt
                 elif not (head in ("staticmethod", "classmethod", "property", "abc.abstractmethod", "abstractmethod", "nb.njit", "numba.njit", "njit")
                           or head.endswith((".setter", ".getter", ".deleter"))):
